@@ -195,6 +195,10 @@ def do_lifecycle(step):
                     (X * X).log()
                     X.inverse().to_Matrix()
                     X.Ad()
+                    if G is lie.SE3Quat:
+                        # three more rotation angles per round through the se(3) Jacobians (more than a thousand distinct ones per prelude)
+                        for s3 in (0.37, 0.61, 0.83):
+                            G.algebra.elem(ca.DM(np.linspace(-0.3, 0.4, G.algebra.n_param) * scale * s3 + 1e-3 * k)).left_jacobian()
                 except Exception:
                     pass
     with contextlib.redirect_stdout(io.StringIO()):
